@@ -758,6 +758,27 @@ func ZZ_C07_Cycle() {
 	zz.Reach("end")
 }
 
+// ZZ_C07_MutualOnce: two deduplicated tasks that call each other, started side by side as
+// dependencies of one task: each first runs a command of its own, then calls the other. The
+// references are cyclic, so the invocation has to end with an error, not with each execution
+// waiting for the other for good.
+func ZZ_C07_MutualOnce() {
+	probe := zzCmd{}
+	mode := []string{"once", "when_changed"}[zz.Choose("run_mode", 2)]
+	g := &zzGraph{Tasks: []zzTask{
+		{Name: "P", Deps: []string{"A", "B"}},
+		{Name: "A", Run: mode, Cmds: []zzCmd{probe, {Call: "B"}}},
+		{Name: "B", Run: mode, Cmds: []zzCmd{probe, {Call: "A"}}},
+	}}
+	tf := g.build(func(string) bool { return false })
+	_, err := zzExec(g, tf, zzRunOpts{}, "P")
+	zz.Assert(err != nil, "cyclic-references-end-with-an-error")
+	if zz.Twin() {
+		zz.Assert(false, "twin")
+	}
+	zz.Reach("end")
+}
+
 // ZZ_C07_FailingDynamicVar: a dynamic (sh:) variable whose command fails makes its task
 // fail; whatever evaluates variables afterwards in the same invocation (a deferred command
 // of the caller, a sibling) must not block on the compiler's cache lock: the invocation
@@ -1010,7 +1031,16 @@ func ZZ_C13_Guards() {
 	wantCode := 0
 	switch guard {
 	case 1:
-		gt.Platforms = []*ast.Platform{{OS: "no-such-os"}}
+		// every way of not naming the current platform: another OS, another architecture
+		// alone, the right OS with another architecture, another OS with the right
+		// architecture, and two entries that both miss
+		gt.Platforms = [][]*ast.Platform{
+			{{OS: "no-such-os"}},
+			{{Arch: "no-such-arch"}},
+			{{OS: runtime.GOOS, Arch: "no-such-arch"}},
+			{{OS: "no-such-os", Arch: runtime.GOARCH}},
+			{{OS: "no-such-os"}, {Arch: "no-such-arch"}},
+		}[zz.Choose("platforms_entry", 5)]
 	case 2:
 		gt.Requires = &ast.Requires{Vars: []*ast.VarsWithValidation{{Name: "NEEDED"}}}
 		guardFails, wantCode = true, errors.CodeTaskMissingRequiredVars
